@@ -5,7 +5,7 @@
    node decoded by [lam_view]/[lam_parts] (Model/Capture.v); a starred argument is an [Other "Starred;.."] node. *)
 From FA.Base Require Import PyAst Value Eval Traverse.
 From FA.Model Require Import Capture.
-From FA.Proofs Require Import Refine RenameSem CaptureProofs CaptureSem CaptureGen.
+From FA.Proofs Require Import Refine RenameSem CaptureProofs CaptureSem CaptureGen CaptureStar.
 
 (* --- inline_sem (partial: first-order use of parameters; every expression; no hygiene hypothesis) ---
    "Inlining = Python's call semantics": Base/Eval.v evaluates [Call (Lambda ps b) args] by Python's positional and
@@ -74,6 +74,20 @@ Theorem inline_leaves_starred_call_defaults :
     Call (res st (Other cls atoms cs)) (map (res st) args) kwn (map (res st) kwv).
 Proof. exact res_starred_call_stays_defaults. Qed.
 Print Assumptions inline_leaves_starred_call_defaults.
+
+(* F30 as an invariant of the whole pass, over EVERY expression tree: [swf allow e] says that every starred node of [e]
+   sits in an argument list or a tuple / list / set display ([allow]: [e] itself is in such a place); the pass never
+   moves one out of there.  ([swf_res_all] is the statement for arbitrary argument maps in flight.)  The proof uses the
+   test [existsb is_starred args] of the model's "plainly called" - the line added by fix F30. *)
+Theorem inline_keeps_starred_in_place :
+  forall e, swf false e = true -> swf false (res [] e) = true.
+Proof. exact swf_res. Qed.
+Print Assumptions inline_keeps_starred_in_place.
+
+Theorem inline_keeps_starred_in_place_stack :
+  forall e allow st, swf allow e = true -> st_ok st -> swf allow (res st e) = true.
+Proof. intros e. exact (swf_res_all (S (size e)) e (Nat.lt_succ_diag_r _)). Qed.
+Print Assumptions inline_keeps_starred_in_place_stack.
 
 (* without a starred argument nothing changed: matching count, no keywords, no clash -> substituted *)
 Theorem inline_plain_call_substituted :
@@ -278,12 +292,29 @@ Proof. repeat split; vm_compute; reflexivity. Qed.
 Example starred_argument_substituted_pinned_refuted :
   exists ps b args,
     length ps = length args /\ existsb is_starred args = true /\
+    swf false (Call (Lambda ps b) args [] []) = true /\
     res_inlined [] ps b args = BinOp BAdd (star (Attr (Name "e") "xs")) (Const (CInt 1)) /\
+    swf false (res_inlined [] ps b args) = false /\
     res [] (Call (Lambda ps b) args [] []) = Call (Lambda ps b) args [] [].
 Proof.
   exists ["a"], (BinOp BAdd (Name "a") (Const (CInt 1))), [star (Attr (Name "e") "xs")].
   repeat split; vm_compute; reflexivity.
 Qed.
+
+(* the hypothesis of inline_keeps_starred_in_place is met by queries with starred arguments in every legal place *)
+Example starred_in_place_runs :
+  let h := Lambda ["a"] (BinOp BAdd (Name "a") (Const (CInt 1))) in
+  let q := Tuple [Call h [star (Attr (Name "e") "xs")] [] [];
+                  star (Attr (Name "e") "two");
+                  Call h [Call h [star (List [Attr (Name "e") "a"])] [] []] [] [];
+                  Call (Name "max") [star (Attr (Name "e") "two")] [] []] in
+  swf false q = true /\ swf false (res [] q) = true /\
+  res [] q = Tuple [Call h [star (Attr (Name "e") "xs")] [] [];
+                    star (Attr (Name "e") "two");
+                    BinOp BAdd (Call h [star (List [Attr (Name "e") "a"])] [] []) (Const (CInt 1));
+                    Call (Name "max") [star (Attr (Name "e") "two")] [] []] /\
+  swf false (BinOp BAdd (star (Name "x")) (Const (CInt 1))) = false.
+Proof. repeat split; vm_compute; reflexivity. Qed.
 
 (* F31: def mk(k): return lambda j, k=k: j + k ; lambda e: mk(e.off)  records  lambda e: lambda j, k=e.off: j + k *)
 Example default_of_returned_lambda_resolved :
